@@ -7,6 +7,7 @@ CONSTANTS
   MaxFaults = 1
   MaxEnv = 1
   ForeignAt = "ref"
+  RenderFails = FALSE
   FailKinds = {}
 VIEW view
 ACTION_CONSTRAINT Emit
